@@ -152,6 +152,13 @@ func main() {
 		if err := os.WriteFile(filepath.Join(*out, s.Name+".req"), b, 0o644); err != nil {
 			panic(err)
 		}
+		// the schema as given to the generator (ground truth for descriptor comparisons)
+		if s.Expect == "ok" {
+			fb, _ := proto.Marshal(&descriptorpb.FileDescriptorSet{File: req.ProtoFile})
+			if err := os.WriteFile(filepath.Join(*out, s.Name+".fds"), fb, 0o644); err != nil {
+				panic(err)
+			}
+		}
 	}
 	mb, _ := json.MarshalIndent(map[string]interface{}{"sets": sets}, "", " ")
 	if err := os.WriteFile(filepath.Join(*out, "manifest.json"), mb, 0o644); err != nil {
